@@ -208,6 +208,8 @@ type Sim struct {
 	CapHit    bool
 	Armed     map[string]bool
 	APILatency time.Duration
+	// Notes are rare, causally important events kept for the whole run (the trace is a ring buffer).
+	Notes []string
 	lastReleased *Task
 	pendingGrace map[*Task]*int64
 }
@@ -303,12 +305,29 @@ func (s *Sim) Violate(monitor, format string, args ...interface{}) {
 		}
 	}
 	v := Violation{Monitor: monitor, Step: s.Steps, Time: s.Now().UTC().Format(time.RFC3339Nano), Msg: fmt.Sprintf(format, args...)}
+	if len(s.Notes) > 0 {
+		v.Msg += " | notes: " + strings.Join(s.Notes, "; ")
+	}
 	s.Viol = append(s.Viol, v)
 	s.Tracef("VIOLATION %s: %s", monitor, v.Msg)
 	s.stopped = true
 }
 
 func (s *Sim) Stopped() bool { return s.stopped }
+
+// Note records a rare event that explains later violations.
+func (s *Sim) Note(format string, args ...interface{}) {
+	n := fmt.Sprintf(format, args...)
+	s.Tracef("NOTE %s", n)
+	for _, x := range s.Notes {
+		if x == n {
+			return
+		}
+	}
+	if len(s.Notes) < 20 {
+		s.Notes = append(s.Notes, n)
+	}
+}
 
 // After registers a simulated timer.
 func (s *Sim) After(d time.Duration, key string, fn func()) *simTimer {
